@@ -107,8 +107,11 @@ func CreateMailboxPerUser(db *sql.DB, userID int64, name string, specialUse stri
 		return 0, fmt.Errorf("mailbox name cannot be empty")
 	}
 
-	// Generate UID validity (Unix timestamp)
-	uidValidity := time.Now().Unix()
+	// Generate UID validity: the Unix timestamp, but never a value this store has handed out before
+	uidValidity, err := nextUIDValidity(db)
+	if err != nil {
+		return 0, err
+	}
 
 	// Insert mailbox record
 	result, err := db.Exec(`
@@ -124,6 +127,27 @@ func CreateMailboxPerUser(db *sql.DB, userID int64, name string, specialUse stri
 	}
 
 	return result.LastInsertId()
+}
+
+// nextUIDValidity returns the UIDVALIDITY for a new mailbox of this store. The clock alone is not enough:
+// a mailbox deleted and created again (or renamed onto) within one second would get its old value back with
+// UIDs starting at 1 again, and a client would take the new messages for the ones it has cached (RFC 3501
+// 2.3.1.1). The store therefore remembers the last value it issued and never goes back or repeats it.
+func nextUIDValidity(db *sql.DB) (int64, error) {
+	if _, err := db.Exec(`CREATE TABLE IF NOT EXISTS uid_validity_seq (
+		id INTEGER PRIMARY KEY CHECK (id = 1),
+		last INTEGER NOT NULL
+	)`); err != nil {
+		return 0, err
+	}
+	var uidValidity int64
+	err := db.QueryRow(`
+		INSERT INTO uid_validity_seq (id, last)
+		VALUES (1, MAX(?, (SELECT COALESCE(MAX(uid_validity), 0) + 1 FROM mailboxes)))
+		ON CONFLICT(id) DO UPDATE SET last = MAX(last + 1, excluded.last)
+		RETURNING last
+	`, time.Now().Unix()).Scan(&uidValidity)
+	return uidValidity, err
 }
 
 func GetMailboxByNamePerUser(db *sql.DB, userID int64, name string) (int64, error) {
